@@ -156,3 +156,20 @@ Theorem add_metadata_unknown_axis_is_source : forall st m s,
   add_metadata_gen st m s = RErr E_UNKNOWN.
 Proof. exact add_metadata_unknown_axis. Qed.
 Print Assumptions add_metadata_unknown_axis_is_source.
+(* Table.del_metadata: axis selection, keys=None clearing the chosen fields, the loops over the
+   axes / zip(ids, metadata) / keys with `if k in md: del md[k]` on the dict objects, the
+   empties == {True} collapse = del_metadata *)
+Theorem del_metadata_is_source_partial : forall t keys s, mlen_ok t ->
+  del_metadata_gen (raw_state t) keys (sel_text s) = ROk (raw_state (del_metadata t keys s)).
+Proof. exact del_metadata_bridge. Qed.
+Print Assumptions del_metadata_is_source_partial.
+Theorem del_metadata_unknown_axis_is_source : forall st keys s,
+  text_eqb s (txt "whole") = false -> tmem s [txt "sample"; txt "observation"] = false ->
+  del_metadata_gen st keys s = RErr E_UNKNOWN.
+Proof. exact del_metadata_unknown_axis. Qed.
+Print Assumptions del_metadata_unknown_axis_is_source.
+(* the hypothesis of the two partial bridges is satisfiable by a table with metadata on both axes *)
+Example mlen_ok_example :
+  mlen_ok (mkM [txt "o1"] [txt "s1"; txt "s2"] [[1; 2]] (Some [[(txt "k", tNone)]]) (Some [[]; [(txt "k", tNone)]])).
+Proof. intros [|] l E; inversion E; reflexivity. Qed.
+Print Assumptions mlen_ok_example.
